@@ -22,7 +22,8 @@ Logical == {LT("long", "timestamp-micros"), LT("long", "timestamp-millis"), LT("
 Named0 == {FixedS("F", 4), FixedS("F0", 0), EnumS("E", <<"A", "B", "C">>), [EnumS("E1", <<"X">>) EXCEPT !.ns = "org.x"], Rec("Empty", "", <<>>)}
 L1 == {ArrayS(P("long")), MapS(P("string")), UnionS(<<P("null"), P("string")>>), UnionS(<<P("long"), P("null")>>), UnionS(<<P("string")>>),
        UnionS(<<P("null"), LT("long", "timestamp-micros"), FixedS("UF", 2)>>),
-       Rec("R", "", <<FieldS("a", P("long")), FieldS("b", P("string"))>>), Rec("R", "com.example.x_y", <<FieldS("t", LT("long", "timestamp-millis"))>>)}
+       Rec("R", "", <<FieldS("a", P("long")), FieldS("b", P("string"))>>), Rec("R", "com.example.x_y", <<FieldS("t", LT("long", "timestamp-millis"))>>),
+       Rec("a.b.Dotted", "ns.other", <<FieldS("f", [FixedS("x.y.Fx", 2) EXCEPT !.ns = "deep.ns"])>>), [EnumS("pkg.Color", <<"R", "G">>) EXCEPT !.ns = "n"]}
 L2 == {ArrayS(ArrayS(P("long"))), MapS(UnionS(<<P("null"), MapS(P("bytes"))>>)), ArrayS(UnionS(<<P("null"), Rec("In", "", <<FieldS("x", P("double"))>>)>>)),
        Rec("Outer", "ns1", <<FieldS("in", Rec("Inner", "ns2", <<FieldS("l", ArrayS(P("string"))), FieldS("e", EnumS("Suit", <<"S", "H">>))>>)),
                              FieldS("u", UnionS(<<P("null"), MapS(ArrayS(FixedS("F3", 3)))>>)), FieldS("d", LT("int", "date"))>>),
